@@ -127,8 +127,18 @@ fn one_header(out: &mut Out, rng: &mut R, h: &BlockHeader) {
     }
 }
 
+/// the driver's executable SHA-256 against the real one, every length across three blocks
+pub fn sha_selftest(out: &mut Out, rng: &mut R) {
+    use elements::hashes::sha256;
+    for n in (0..200).chain([255, 256, 257, 1000, 4096]) {
+        let b = gen::bytes(rng, n);
+        out.k(format!("sha {}", hex(&b)), format!("ok {} {}", hex(&sha256::Hash::hash(&b).to_byte_array()), hex(&sha256d::Hash::hash(&b).to_byte_array())));
+    }
+}
+
 pub fn run(rng: &mut R, out: &mut Out) {
     c01::cfg_line(out);
+    sha_selftest(out, rng);
     let scale = if out.tier_thorough { 15 } else { 1 };
     for _ in 0..150 * scale {
         let t = gen::tx(rng);
